@@ -1,5 +1,6 @@
 import OdlModel.Common
 import OdlModel.Model.Deriv
+import OdlModel.Model.DerivLeaves
 import OdlModel.Gen.UfuncDeriv
 open OdlModel OdlModel.Deriv
 
@@ -159,10 +160,55 @@ def doUfunc (l : Line) : Option String := do
   | some a, some b => some s!"ok f={showRat a} d={showRat b}"
   | _, _ => some "err:nan"
 
+
+/-! Norm-type leaves at `Float` (round 4):
+
+`leaf t=<leaf> x=<vec> d=<vec>` with `<leaf>` one of `norm|n`, `dist|n|<y>`, `l2norm|n`, `cmod|n`,
+`pwnorm|m|n`.  All numbers are exact rationals of doubles.  Answer:
+`ok dom=N ran=N val=<op(x)> ddom=N dran=N dvec=<vector held by derivative(x)> dval=<derivative(x)(d)>`,
+`err:deriv dom=N ran=N val=<op(x)>` (`derivative` raises) or `err:wf` (not modelled).
+Entries that are not finite print as `nan` / `inf` / `-inf`. -/
+
+def vecOfF (l : List Rat) : Vec Float :=
+  let a := (l.map ratFloat).toArray
+  fun k => a.getD k 0
+
+def showF (x : Float) : String :=
+  match floatRat x with
+  | some r => showRat r
+  | none => if x.isNaN then "nan" else if x > 0 then "inf" else "-inf"
+
+def showFs (n : Nat) (v : Vec Float) : String :=
+  if n = 0 then "-" else ",".intercalate ((List.range n).map fun k => showF (v k))
+
+def parseLeaf : List String → Option (Leaf Float)
+  | ["norm", n] => do pure (.norm (← n.toNat?))
+  | ["dist", n, y] => do pure (.dist (← n.toNat?) (vecOfF (← parseRatList y)))
+  | ["l2norm", n] => do pure (.l2norm (← n.toNat?))
+  | ["cmod", n] => do pure (.cmod (← n.toNat?))
+  | ["pwnorm", m, n] => do pure (.pwnorm (← m.toNat?) (← n.toNat?))
+  | _ => none
+
+def doLeaf (l : Line) : Option String := do
+  let t ← l.get? "t"
+  let lf ← parseLeaf (t.splitOn "|")
+  let xs ← l.rats? "x"
+  let ds ← l.rats? "d"
+  if xs.length ≠ lf.dom || ds.length ≠ lf.dom then none
+  if !lf.wf then return "err:wf"
+  let x := vecOfF xs
+  let d := vecOfF ds
+  let head := s!"dom={lf.dom} ran={lf.ran} val={showFs lf.ran (lf.run x)}"
+  match lf.deriv x with
+  | none => some s!"err:deriv {head}"
+  | some j =>
+    some s!"ok {head} ddom={j.dom} dran={j.ran} dvec={showFs j.dom j.vec} dval={showFs j.ran (j.run d)}"
+
 def handle (l : Line) : Option String :=
   match l.op with
   | "deriv" => doDeriv l
   | "ufunc" => doUfunc l
+  | "leaf" => doLeaf l
   | _ => none
 
 def main : IO Unit := driverLoop handle
